@@ -4,6 +4,7 @@ import (
 	"encoding/binary"
 	"fmt"
 	"runtime"
+	"strings"
 	"sync"
 
 	"github.com/pion/rtcp"
@@ -141,8 +142,11 @@ func (s *State) Sweep(name string, stride uint64) V {
 	var n uint64
 	var fails []string
 	// a sweep runs for minutes by design: it is not timed by the watchdog
+	// "<name>-fields": instead of striding over the whole domain, every value of each field of the unit
+	// with the other fields at a few presets (the quick tier's exhaustive-per-field complement of a stride)
+	base, perField := strings.CutSuffix(name, "-fields")
 	pan, msg := unguarded(func() {
-		switch name {
+		switch base {
 		case "loss24": // every 24-bit cumulative-lost value: marshal places it big-endian in octets 5..7, unmarshal returns it
 			n = 1 << 24
 			fails = parallel(n, func(lo, hi uint64, fail func(string)) {
@@ -161,78 +165,130 @@ func (s *State) Sweep(name string, stride uint64) V {
 			})
 		case "header32": // every 32-bit header word: version 2 decodes and re-encodes to itself, others are refused
 			n = 1 << 32
-			fails = parallel(n, func(lo, hi uint64, fail func(string)) {
+			body := func(x uint64, fail func(string)) {
 				var b [4]byte
-				for x := lo; x < hi; x += stride {
-					binary.BigEndian.PutUint32(b[:], uint32(x))
-					var h rtcp.Header
-					err := h.Unmarshal(b[:])
-					if b[0]>>6 != 2 {
-						if err == nil {
-							fail(fmt.Sprintf("accepted %08x", x))
-						}
-						continue
+				binary.BigEndian.PutUint32(b[:], uint32(x))
+				var h rtcp.Header
+				err := h.Unmarshal(b[:])
+				if b[0]>>6 != 2 {
+					if err == nil {
+						fail(fmt.Sprintf("accepted %08x", x))
 					}
-					if err != nil || h.Padding != (b[0]&0x20 != 0) || h.Count != b[0]&31 || uint8(h.Type) != b[1] || h.Length != uint16(x) {
-						fail(fmt.Sprintf("decode %08x", x))
-						continue
-					}
-					o, err := h.Marshal()
-					if err != nil || binary.BigEndian.Uint32(o) != uint32(x) {
-						fail(fmt.Sprintf("encode %08x", x))
-					}
+					return
 				}
-			})
+				if err != nil || h.Padding != (b[0]&0x20 != 0) || h.Count != b[0]&31 || uint8(h.Type) != b[1] || h.Length != uint16(x) {
+					fail(fmt.Sprintf("decode %08x", x))
+					return
+				}
+				o, err := h.Marshal()
+				if err != nil || binary.BigEndian.Uint32(o) != uint32(x) {
+					fail(fmt.Sprintf("encode %08x", x))
+				}
+			}
+			if perField {
+				xs := fieldValues([]int{2, 1, 5, 8, 16}, []uint64{0, 0xFFFFFFFF, 0x9A5C3C69})
+				n = uint64(len(xs))
+				fails = parallel(n, func(lo, hi uint64, fail func(string)) {
+					for i := lo; i < hi; i++ {
+						body(xs[i], fail)
+					}
+				})
+			} else {
+				fails = parallel(n, func(lo, hi uint64, fail func(string)) {
+					for x := lo; x < hi; x += stride {
+						body(x, fail)
+					}
+				})
+			}
 		case "nack32": // every (PID, BLP): single-entry NACK encodes it big-endian at offset 12 and decodes it back
 			n = 1 << 32
-			fails = parallel(n, func(lo, hi uint64, fail func(string)) {
-				for x := lo; x < hi; x += stride {
-					p := rtcp.TransportLayerNack{SenderSSRC: 1, MediaSSRC: 2, Nacks: []rtcp.NackPair{{PacketID: uint16(x >> 16), LostPackets: rtcp.PacketBitmap(x)}}}
-					b, err := p.Marshal()
-					if err != nil || len(b) != 16 || binary.BigEndian.Uint32(b[12:]) != uint32(x) {
-						fail(fmt.Sprintf("marshal %08x", x))
-						continue
-					}
-					var q rtcp.TransportLayerNack
-					if err := q.Unmarshal(b); err != nil || len(q.Nacks) != 1 || q.Nacks[0] != p.Nacks[0] {
-						fail(fmt.Sprintf("unmarshal %08x", x))
-					}
+			body := func(x uint64, fail func(string)) {
+				p := rtcp.TransportLayerNack{SenderSSRC: 1, MediaSSRC: 2, Nacks: []rtcp.NackPair{{PacketID: uint16(x >> 16), LostPackets: rtcp.PacketBitmap(x)}}}
+				b, err := p.Marshal()
+				if err != nil || len(b) != 16 || binary.BigEndian.Uint32(b[12:]) != uint32(x) {
+					fail(fmt.Sprintf("marshal %08x", x))
+					return
 				}
-			})
+				var q rtcp.TransportLayerNack
+				if err := q.Unmarshal(b); err != nil || len(q.Nacks) != 1 || q.Nacks[0] != p.Nacks[0] {
+					fail(fmt.Sprintf("unmarshal %08x", x))
+				}
+			}
+			if perField {
+				xs := fieldValues([]int{16, 16}, []uint64{0, 0xFFFFFFFF, 0x5A3CA5C3})
+				n = uint64(len(xs))
+				fails = parallel(n, func(lo, hi uint64, fail func(string)) {
+					for i := lo; i < hi; i++ {
+						body(xs[i], fail)
+					}
+				})
+			} else {
+				fails = parallel(n, func(lo, hi uint64, fail func(string)) {
+					for x := lo; x < hi; x += stride {
+						body(x, fail)
+					}
+				})
+			}
 		case "sli32": // every SLI word: First(13) Number(13) Picture(6)
 			n = 1 << 32
-			fails = parallel(n, func(lo, hi uint64, fail func(string)) {
-				for x := lo; x < hi; x += stride {
-					e := rtcp.SLIEntry{First: uint16(x >> 19), Number: uint16(x >> 6 & 0x1FFF), Picture: uint8(x & 0x3F)}
-					p := rtcp.SliceLossIndication{SenderSSRC: 1, MediaSSRC: 2, SLI: []rtcp.SLIEntry{e}}
-					b, err := p.Marshal()
-					if err != nil || len(b) != 16 || binary.BigEndian.Uint32(b[12:]) != uint32(x) {
-						fail(fmt.Sprintf("marshal %08x", x))
-						continue
-					}
-					var q rtcp.SliceLossIndication
-					if err := q.Unmarshal(b); err != nil || len(q.SLI) != 1 || q.SLI[0] != e {
-						fail(fmt.Sprintf("unmarshal %08x", x))
-					}
+			body := func(x uint64, fail func(string)) {
+				e := rtcp.SLIEntry{First: uint16(x >> 19), Number: uint16(x >> 6 & 0x1FFF), Picture: uint8(x & 0x3F)}
+				p := rtcp.SliceLossIndication{SenderSSRC: 1, MediaSSRC: 2, SLI: []rtcp.SLIEntry{e}}
+				b, err := p.Marshal()
+				if err != nil || len(b) != 16 || binary.BigEndian.Uint32(b[12:]) != uint32(x) {
+					fail(fmt.Sprintf("marshal %08x", x))
+					return
 				}
-			})
+				var q rtcp.SliceLossIndication
+				if err := q.Unmarshal(b); err != nil || len(q.SLI) != 1 || q.SLI[0] != e {
+					fail(fmt.Sprintf("unmarshal %08x", x))
+				}
+			}
+			if perField {
+				xs := fieldValues([]int{13, 13, 6}, []uint64{0, 0xFFFFFFFF, 0x5A3CA5C3})
+				n = uint64(len(xs))
+				fails = parallel(n, func(lo, hi uint64, fail func(string)) {
+					for i := lo; i < hi; i++ {
+						body(xs[i], fail)
+					}
+				})
+			} else {
+				fails = parallel(n, func(lo, hi uint64, fail func(string)) {
+					for x := lo; x < hi; x += stride {
+						body(x, fail)
+					}
+				})
+			}
 		case "fir40": // FIR entries SSRC(32) seq(8): strided over the 2^40 domain
 			n = 1 << 40
-			fails = parallel(n, func(lo, hi uint64, fail func(string)) {
-				for x := lo; x < hi; x += stride {
-					e := rtcp.FIREntry{SSRC: uint32(x >> 8), SequenceNumber: uint8(x)}
-					p := rtcp.FullIntraRequest{SenderSSRC: 1, MediaSSRC: 2, FIR: []rtcp.FIREntry{e}}
-					b, err := p.Marshal()
-					if err != nil || len(b) != 20 || binary.BigEndian.Uint32(b[12:]) != e.SSRC || b[16] != e.SequenceNumber || b[17]|b[18]|b[19] != 0 {
-						fail(fmt.Sprintf("marshal %010x", x))
-						continue
-					}
-					var q rtcp.FullIntraRequest
-					if err := q.Unmarshal(b); err != nil || len(q.FIR) != 1 || q.FIR[0] != e {
-						fail(fmt.Sprintf("unmarshal %010x", x))
-					}
+			body := func(x uint64, fail func(string)) {
+				e := rtcp.FIREntry{SSRC: uint32(x >> 8), SequenceNumber: uint8(x)}
+				p := rtcp.FullIntraRequest{SenderSSRC: 1, MediaSSRC: 2, FIR: []rtcp.FIREntry{e}}
+				b, err := p.Marshal()
+				if err != nil || len(b) != 20 || binary.BigEndian.Uint32(b[12:]) != e.SSRC || b[16] != e.SequenceNumber || b[17]|b[18]|b[19] != 0 {
+					fail(fmt.Sprintf("marshal %010x", x))
+					return
 				}
-			})
+				var q rtcp.FullIntraRequest
+				if err := q.Unmarshal(b); err != nil || len(q.FIR) != 1 || q.FIR[0] != e {
+					fail(fmt.Sprintf("unmarshal %010x", x))
+				}
+			}
+			if perField {
+				xs := fieldValues([]int{16, 16, 8}, []uint64{0, 0xFFFFFFFFFF, 0x5A3CA5C369})
+				n = uint64(len(xs))
+				fails = parallel(n, func(lo, hi uint64, fail func(string)) {
+					for i := lo; i < hi; i++ {
+						body(xs[i], fail)
+					}
+				})
+			} else {
+				fails = parallel(n, func(lo, hi uint64, fail func(string)) {
+					for x := lo; x < hi; x += stride {
+						body(x, fail)
+					}
+				})
+			}
 		case "nackequiv32": // PacketList(id, bm) = PacketList(0, bm) + id (mod 2^16), all 2^32 pairs
 			n = 1 << 32
 			fails = parallel(n, func(lo, hi uint64, fail func(string)) {
@@ -326,4 +382,25 @@ func (s *State) Sweep(name string, stride uint64) V {
 		ev["msg"] = msg
 	}
 	return s.emit(ev)
+}
+
+// fieldValues enumerates, for a word made of fields of the given widths (most significant first), every
+// value of each field combined with each preset for the rest of the word.
+func fieldValues(widths []int, presets []uint64) []uint64 {
+	total := 0
+	for _, w := range widths {
+		total += w
+	}
+	var out []uint64
+	shift := total
+	for _, w := range widths {
+		shift -= w
+		mask := (uint64(1)<<uint(w) - 1) << uint(shift)
+		for _, p := range presets {
+			for v := uint64(0); v < 1<<uint(w); v++ {
+				out = append(out, (p&^mask|v<<uint(shift))&(uint64(1)<<uint(total)-1))
+			}
+		}
+	}
+	return out
 }
